@@ -325,6 +325,7 @@ static int get_p(
     }
       else
     {
+      if (check_range(asm_context, "Index", n, 1, 0x7ffff) == -1) { return -2; }
       value = value << 15;
       value |= n & 0xfffff;
     }
@@ -374,6 +375,7 @@ static int get_p(
     }
       else
     {
+      if (check_range(asm_context, "Index", n, 1, 0x80000) == -1) { return -2; }
       n = -n;
       value = value << 15;
       value |= n & 0x0fffff;
@@ -409,8 +411,9 @@ static int get_p(
     }
       else
     {
+      if (check_range(asm_context, "Index", n, -0x80000, 0x7ffff) == -1) { return -2; }
       value = value << 15;
-      value |= n & 0xffffff;
+      value |= n & 0xfffff;
     }
 
     operands->type = OPERAND_PTR;
@@ -492,6 +495,7 @@ static int get_inc_dec_p(
     }
       else
     {
+      if (check_range(asm_context, "Index", n, 1, 0x7ffff) == -1) { return -2; }
       value = value << 15;
       value |= n & 0xfffff;
     }
@@ -545,6 +549,7 @@ static int get_inc_dec_p(
     }
       else
     {
+      if (check_range(asm_context, "Index", n, 1, 0x80000) == -1) { return -2; }
       n = -n;
       value = value << 15;
       value |= n & 0x0fffff;
